@@ -370,4 +370,94 @@ theorem scanPar_nocache (cf : Bool) (s : Sched) (hn : 0 < s.n) (hT : s.timedOut 
     rw [pool_spec s hn, hT, keepFrom_nil]
     cases mapE (specRow (childTask cf w c) none) rows <;> rfl
 
+theorem pickleSim_placeOne (h : Heap) (p : Pickled) :
+    pickleSim (placeOne h p).1 (placeOne h p).2 = .ok p := by
+  simp [pickleSim, placeOne, Heap.read]
+
+theorem agree_tail {β : Type} (st st0 : Option (Store β)) (k : Label) (rest : List Label)
+    (h : AgreeOn st st0 (k :: rest)) : AgreeOn st st0 rest :=
+  fun k' hk' => h k' (List.mem_cons_of_mem _ hk')
+
+/-- sequential scan WITH a cache, shipped row task: the specification over the directory as it was before the call -/
+theorem seqScanCache_spec (w : Worker) (c : Content) (cell : Nat) (st0 : Store Pickled) :
+    ∀ (rows : List (Label × Row)) (h : Heap) (st : Store Pickled), h.read cell = .ok c →
+      distinctKeys (rows.map (·.1)) = true → AgreeOn (some st) (some st0) (rows.map (·.1)) →
+      (seqScanCache true w h cell (some st) rows).1 =
+        match mapE (specRow (rowPure w c) (some st0)) rows with
+        | .error e => .error e
+        | .ok ps => .ok (placeAll h ps) := by
+  intro rows
+  induction rows with
+  | nil => intro h st _ _ _; simp [seqScanCache, mapE, placeAll, placeFrom]
+  | cons lr rest ih =>
+    intro h st hc hd ha
+    simp only [List.map_cons] at hd ha
+    obtain ⟨hk, hd'⟩ := distinctKeys_cons _ _ hd
+    have hlook : st.lookup lr.1 = st0.lookup lr.1 := by
+      have := ha lr.1 List.mem_cons_self
+      simpa [Option.bind] using this
+    unfold seqScanCache
+    simp only [mapE, specRow, Option.bind]
+    rw [hlook]
+    cases hl : st0.lookup lr.1 with
+    | some p =>
+      simp only
+      have := ih (h ++ [p.content]) st (read_append hc _) hd' (agree_tail _ _ _ _ ha)
+      generalize seqScanCache true w (h ++ [p.content]) cell (some st) rest = r at this ⊢
+      obtain ⟨x, st'⟩ := r
+      simp only at this
+      subst this
+      cases mapE (specRow (rowPure w c) (some st0)) rest with
+      | error e => rfl
+      | ok ps => simp [placeAll, placeFrom]
+    | none =>
+      simp only
+      rw [rowTask_copy w h cell lr.2 c hc]
+      cases hp : rowPure w c lr.2 with
+      | error e => rfl
+      | ok p =>
+        simp only
+        rw [pickleSim_placeOne]
+        simp only [placeOne]
+        have hag : AgreeOn (some (st ++ [(lr.1, p)])) (some st0) (rest.map (·.1)) := by
+          have := addFile_agree (some st) (some st0) lr.1 (some (lr.1, p)) (rest.map (·.1)) (fun e he => by cases he; rfl) hk ha
+          simpa [addFile] using this
+        have := ih (h ++ [p.content]) (st ++ [(lr.1, p)]) (read_append hc _) hd' hag
+        generalize seqScanCache true w (h ++ [p.content]) cell (some (st ++ [(lr.1, p)])) rest = r at this ⊢
+        obtain ⟨x, st'⟩ := r
+        simp only at this
+        subst this
+        cases mapE (specRow (rowPure w c) (some st0)) rest with
+        | error e => rfl
+        | ok ps => simp [placeAll, placeFrom]
+
+theorem scanPar_spec (s : Sched) (hn : 0 < s.n) (hT : s.timedOut = []) (w : Worker) (h : Heap) (cell : Nat) (c : Content)
+    (hc : h.read cell = .ok c) (rows : List (Label × Row)) (st0 : Store Pickled)
+    (hd : distinctKeys (rows.map (·.1)) = true) :
+    (scanPar true s w h cell rows (some st0)).1 =
+      match mapE (specRow (rowPure w c) (some st0)) rows with
+      | .error e => .error e
+      | .ok ps => .ok (placeAll h ps) := by
+  unfold scanPar
+  rw [hc]
+  simp only
+  have hf : childTask true w c = rowPure w c := funext (childTask_copy w c)
+  rw [hf]
+  unfold parallelise
+  simp only [hd, Option.isSome_some, Bool.not_true, Bool.and_false, Bool.false_eq_true, if_false, if_true]
+  rw [pool_spec s hn, hT, keepFrom_nil]
+  cases mapE (specRow (rowPure w c) (some st0)) rows <;> rfl
+
+theorem pureRows_mapE (w : Worker) (c : Content) : ∀ (rows : List (Label × Row)),
+    pureRows w c rows = mapE (specRow (rowPure w c) none) rows := by
+  intro rows
+  induction rows with
+  | nil => rfl
+  | cons lr rest ih =>
+    simp only [pureRows, mapE]
+    rw [specRow_none_eq, ih]
+    cases rowPure w c lr.2 with
+    | error e => rfl
+    | ok p => simp only; cases mapE (specRow (rowPure w c) none) rest <;> rfl
+
 end Mxl.C09
